@@ -239,6 +239,11 @@ def run(prog: Program, rep: Report, tier: str) -> None:
         falls = [p for p in paths if p.exit == "fall"]
         raises = [p for p in paths if p.exit == "raise"]
         rep.check("R12.4", f.qual, f"unknown {opt} raises", not falls and len(raises) >= 2, what_bad=f"{len(falls)} path(s) fall off the end (return None), {len(raises)} raise", what_ok=f"{len(raises)} raising paths, none falls through", loc=f.loc())
+    from . import c14
+
+    rep.rule("R12.7", "the level index / weight used for a particle are looked up from its current depth in every update (shared with C14 R14.6)", 2)
+    c14.step_attribute_freshness(prog, rep, "R12.7", roles=("forcing",))
+
 
 
 from ..selftest import Mut  # noqa: E402
